@@ -1,11 +1,163 @@
+"""C06 — concurrency limits hold, no slot idles, and the build always finishes.
+SIM: trace invariants over generated graphs x pools x -j x faults x schedules (see simprops).  E2E: the same through
+the real binary, plus a GNU-make jobserver (fifo) with 0-3 tokens: never more commands than tokens+1 (and -j), and
+every token is back in the fifo when ninja has exited - after success, failures, exit code 130 and -k."""
+import errno, json, os, shutil, traceback
+from hypothesis import given, settings, seed as hseed, HealthCheck, Phase, Verbosity, strategies as st
+from .. import common, graphs, models, simrun, e2e
+from ..models import key, all_outs
 from . import simprops
+
 PROP = "C06"
 
 
+class Fifo:
+    def __init__(self, path, tokens):
+        self.path = path
+        os.mkfifo(path)
+        self.fd = os.open(path, os.O_RDWR | os.O_NONBLOCK)
+        os.write(self.fd, b"+" * tokens)
+        self.tokens = tokens
+
+    def count(self):
+        n = 0
+        while True:
+            try:
+                b = os.read(self.fd, 64)
+            except OSError as e:
+                if e.errno in (errno.EAGAIN, errno.EWOULDBLOCK):
+                    break
+                raise
+            if not b:
+                break
+            n += len(b)
+        return n
+
+    def close(self):
+        os.close(self.fd)
+        os.unlink(self.path)
+
+
+def run_jobserver_case(root, g, tokens, j, k, faults, sleepy):
+    """returns (finding or None, labels)"""
+    sim = e2e.RealSim(root, g)
+    labels = set()
+    fifo = None
+    try:
+        if not sim.establish():
+            return None, labels
+        cmds = sim.cmd_edges()
+        if not cmds:
+            return None, labels
+        for e in cmds:
+            for o in all_outs(e):
+                sim.delete(o)
+        fifo = Fifo(os.path.join(root, "jobserver.fifo"), tokens)
+        sim.omit_j = True
+        sim.extra_env = {"MAKEFLAGS": " -j%d --jobserver-auth=fifo:%s" % (tokens + 1, fifo.path),
+                         "VERIF_SLEEP": ",".join("%s:%d" % (key(e), 15 + 10 * (i % 3)) for i, e in enumerate(cmds)) if sleepy else ""}
+        fl = {}
+        for (a, code) in faults:
+            fl[key(cmds[a % len(cmds)])] = dict(fail=code, fail_touch=False)
+        targets = [key(e) for e in sim.g['edges']]
+        req = sim.request(targets, j=j, k=k, faults=fl or None)
+        res = sim.execute(req)
+        left = fifo.count()
+        starts = [ev for ev in res['trace'] if ev['ev'] == 'start']
+        if starts:
+            labels.add('jobserver_build')
+        if any(ev['running'] for ev in starts):
+            labels.add('jobserver_parallel')
+        if fl:
+            labels.add('jobserver_failure')
+        if any(c == 130 for _, c in faults):
+            labels.add('jobserver_exit130')
+        detail = dict(tokens=tokens, j=j, k=k, faults=faults, manifest=graphs.manifest(sim.g)[-400:], output=res['err'][-400:])
+        if left != tokens:
+            return dict(kind="jobserver tokens not all returned: %d in the fifo before, %d after ninja exited (status %d)" % (tokens, left, res['status']), detail=detail), labels
+        for ev in starts:
+            if len(ev['running']) + 1 > tokens + 1:
+                return dict(kind="more commands running (%d) than jobserver tokens held + 1 (%d)" % (len(ev['running']) + 1, tokens + 1), detail=detail), labels
+        seen = set()
+        for ev in starts:
+            if ev['edge'] in seen:
+                return dict(kind="command of %s run twice in one invocation" % ev['edge'], detail=detail), labels
+            seen.add(ev['edge'])
+        if "stuck" in res['err']:
+            return dict(kind="ninja reported 'stuck'", detail=detail), labels
+        if not fl and res['status'] != 0:
+            return dict(kind="build under a jobserver failed without an injected fault (status %d)" % res['status'], detail=detail), labels
+        return None, labels
+    finally:
+        if fifo:
+            fifo.close()
+        sim.close()
+
+
+def jobserver_worker(widx, n_examples):
+    res = common.Result()
+    state = {}
+    budget = common.ShrinkBudget()
+    root = common.scratch_root()
+    try:
+        @hseed(common.sub_seed(PROP, 'js', widx))
+        @settings(max_examples=n_examples, deadline=None, database=None, suppress_health_check=list(HealthCheck),
+                  phases=[Phase.generate, Phase.shrink], verbosity=Verbosity.quiet, report_multiple_bugs=False)
+        @given(graphs.graphs(max_edges=6, features=dict(unordered_hidden=False)), st.integers(0, 3), st.sampled_from([1, 2, 3, 8]), st.sampled_from([1, 2, 0]),
+               st.lists(st.tuples(st.integers(0, 20), st.sampled_from([1, 2, 130, 130, 255])), max_size=2), st.booleans())
+        def test(g, tokens, j, k, faults, sleepy):
+            case = dict(g=g, tokens=tokens, j=j, k=k, faults=[list(f) for f in faults], sleepy=sleepy)
+            dg = common.digest(case)
+            if budget.skip(dg):
+                return
+            f, labels = run_jobserver_case(root, g, tokens, j, k, faults, sleepy)
+            res.case(case, 'jobserver_build' in labels and (tokens > 0 or bool(faults)), ['js:' + l for l in labels],
+                     sample=dict(tokens=tokens, j=j, k=k, faults=case['faults']) if 'jobserver_failure' in labels else None)
+            if f:
+                state['fail'] = (case, "[real binary, jobserver] %s %s" % (f['kind'], json.dumps(f['detail'], default=repr)[:1200]))
+                budget.failed(dg)
+                raise AssertionError()
+        common.run_hypothesis(test, state, res)
+    finally:
+        shutil.rmtree(root, ignore_errors=True)
+    return res
+
+
+def replay_js(case):
+    root = common.scratch_root()
+    try:
+        f, _ = run_jobserver_case(root, case['g'], case['tokens'], case['j'], case['k'], [tuple(x) for x in case['faults']], case['sleepy'])
+    finally:
+        shutil.rmtree(root, ignore_errors=True)
+    return f['kind'] if f else None
+
+
 def run(tier):
-    ck = simprops.run_prop(PROP, tier, n_quick=6000, n_thorough=200000, e2e=(500, 12000))
+    ck = simprops.run_prop(PROP, tier, n_quick=6000, n_thorough=200000, e2e=(400, 12000))
+    r = common.run_workers(jobserver_worker, [(w, (800 if tier == 'thorough' else 25)) for w in range(common.NCPU)])
+    ck.merge(r)
+    for f in r.failures:
+        if f.get('harness_error'):
+            continue
+        fails = sum(1 for _ in range(3) if replay_js(f['case']))
+        if fails == 3:
+            ck.violation(f['case'], f['why'])
+        else:
+            ck.res.notes.append("FLAKY %d/3: %s" % (fails, f['why'][:200]))
+    ck.rule += (" E2E jobserver part: generated graph built from scratch by the real binary as a client of a fifo jobserver with 0-3 tokens, -j 1..8, -k, "
+                "injected failures incl. exit code 130; the fifo must hold all tokens afterwards and concurrency must stay <= tokens+1.")
     return ck.finish()
 
 
 def replay(path):
+    j = json.load(open(path))
+    case = j.get('case', j)
+    if 'tokens' in case:
+        why = replay_js(case)
+        if why:
+            print("finding:", why)
+            print("VIOLATION property=%s replay=%s" % (PROP, path))
+            return 1
+        print("replay: no violation")
+        return 0
     return simprops.replay(PROP, path)
